@@ -139,6 +139,31 @@ static std::string run_case(const toks_t& t)
           sb[i]->free_in_sandbox(p);
           out += std::string("f=") + (impl->freed.size() > before ? "done" : "ignored");
 #endif
+        } else if (c == "fv" || c == "fo") {
+#ifdef LIFE_NOOP
+          out += c + "=skip";
+#else
+          // the other two overloads of free_in_sandbox: through a tainted_volatile reference (a pointer cell that
+          // lives in the memory of sandbox j, which must be live to hold it) and through a tainted_opaque
+          int i = std::stoi(o[1]);
+          auto impl = sb[i]->get_sandbox_impl();
+          size_t before = impl->freed.size();
+          if (c == "fo") {
+            rlbox::tainted<int*, Sbx> p = nullptr;
+            sb[i]->free_in_sandbox(p.to_opaque());
+            out += std::string("fo=") + (impl->freed.size() > before ? "done" : "ignored");
+          } else {
+            int j = std::stoi(o[2]);
+            if (!created[j]) { out += "fv=nocell"; }
+            else {
+              auto cellp = sb[j]->malloc_in_sandbox<int*>();
+              *cellp = nullptr;
+              before = impl->freed.size();
+              sb[i]->free_in_sandbox(*cellp);
+              out += std::string("fv=") + (impl->freed.size() > before ? "done" : "ignored");
+            }
+          }
+#endif
         } else if (c == "go" && (owners[std::stoi(o[1])].is_unregistered() || !created[own_sb[std::stoi(o[1])]])) {
           out += owners[std::stoi(o[1])].is_unregistered() ? "go=dead" : "go=notcreated";
         } else if ((c == "l" || c == "il" || c == "gs" || c == "lb" || c == "ilb" || c == "fa") && !created[std::stoi(o[1])]) {
